@@ -630,3 +630,38 @@ def ondemand_replay(res, rng, q, wd):
         res.violation("ondemand_replay", dict(check="ondemand_replay", graph={k: small[x["gi"] - 1][k] for k in ("n", "init", "succ", "inb")}, behaviour=x))
     res.traces += len(flat)
     res.notes.append("OnDemand.tla: %d request sequences enumerated by TLC replayed into the real on-demand checker" % len(flat))
+
+
+def example_single_copy(res, clients=(2,)):
+    """Third-party style oracle: SingleCopy.tla (register harness + tester state + network as a spec) vs the shipped
+    examples/single-copy-register.rs run by the real checker: state counts and the linearizability verdict."""
+    import subprocess, re
+    wd = workdir("exsc-%s" % res.pid)
+    recs = []
+    for c in clients:
+        r = run_tlc("SingleCopy.tla", "cfg/SingleCopy_1_%d.cfg" % c, workers=8, timeout=3000, heap="10g", name="singlecopy-%d" % c)
+        res.add_tlc(r, "SingleCopy[1 server, %d clients]" % c)
+        if not r["ok"]:
+            raise ToolError("SingleCopy.tla: %s violated on the SPEC" % r["violated"])
+        env = dict(os.environ, CARGO_NET_OFFLINE="true")
+        p = subprocess.run(["cargo", "run", "--offline", "--release", "--example", "single-copy-register", "--", "check", str(c), "unordered_nonduplicating"],
+                           cwd="/repo", env=env, stdout=subprocess.PIPE, stderr=subprocess.STDOUT, text=True, timeout=3000)
+        m = re.search(r"Done\. states=(\d+), unique=(\d+)", p.stdout)
+        if not m:
+            raise ToolError("examples/single-copy-register did not report a result:\n" + p.stdout[-1500:])
+        recs.append(dict(n=c, symmetry=False, states=int(m.group(1)), unique=int(m.group(2)), tlc_distinct=r["distinct"], tlc_orbits=0,
+                         found_commit=True, found_abort=True, found_inconsistent='Discovered "linearizable"' in p.stdout))
+    r2 = run_tlc("SingleCopy.tla", "cfg/SingleCopy_2_2.cfg", workers=4, timeout=1200, name="singlecopy-2-2")
+    if r2["violated"] != "Linearizable":
+        raise ToolError("SingleCopy.tla with two servers should violate Linearizable, got %s" % r2["violated"])
+    rp, op = os.path.join(wd, "ex.ndjson"), os.path.join(wd, "ex.json")
+    write_ndjson(rp, recs)
+    run_tlc("JudgeExamples.tla", "cfg/empty.cfg", env=dict(RECS=rp, OUT=op), timeout=300, name="jexsc")
+    o = json.load(open(op))
+    for i in o["bad"]:
+        res.violation("example_single_copy", dict(check="example_single_copy", record=recs[i - 1]))
+    res.traces += len(recs)
+    res.notes.append("examples/single-copy-register.rs vs SingleCopy.tla: " + "; ".join(
+        "%d clients: stateright unique=%d states=%d, TLC distinct=%d" % (x["n"], x["unique"], x["states"], x["tlc_distinct"]) for x in recs)
+        + "; with two servers TLC finds the linearizability violation the example documents")
+    shutil.rmtree(wd, ignore_errors=True)
